@@ -31,6 +31,9 @@ def _resp_mutations(P, body, T):
 def run(ctx):
     P = ctx.P
     cg = callgraph(P)
+    # whether `match-subnet` holds is containment in an Ipv4Subnet, whose rules (masked comparison, or a constructor that refuses
+    # host bits) are C08.R6's
+    ctx.include("C08", rules=("R6",))
     # anchors by signature
     apply1 = [f for f, s in P.sigs.items() if len(s["inputs"]) == 3 and s["inputs"][0].endswith("DHCPRequest") and
               s["inputs"][1].endswith("dhcp::config::Policy") and "Response" in s["inputs"][2] and s["output"] == "bool" and f in P.bodies]
@@ -160,6 +163,17 @@ def run(ctx):
         ctx.check(guarded, "R1", "option-written-only-if-requested:%s:%s" % (nme.rsplit("::", 1)[1], _keyname(key)), ctx.where(A1, tm["sp"]),
                   "a policy option may be sent only if the client's parameter request list contains it (key %s)" % show(key)[:60])
     ctx.floor("R1", "policy option writes", n, 3)
+    # the codes of the parameter request list are taken as sent: the u8 -> DhcpOption conversion wraps the octet and nothing else
+    conv = [b for b in P.bodies.values() if b.id == "<erbium::dhcp::dhcppkt::DhcpOption as std::convert::From<u8>>::from"]
+    for cb in conv:
+        ctx.saw(cb)
+        Tc = terms(P, cb)
+        rets = [norm(Tc.rvalue(st["rv"], bb, idx)) for bb, idx, st in cb.stmts() if st["p"] == (0,) and "rv" in st]
+        good = bool(rets) and all(r[0] == "agg" and len(r[3]) == 1 and norm(r[3][0][1]) == ("param", 1) for r in rets)
+        ctx.check(good and not list(cb.calls()), "R1", "requested-option-codes-taken-as-sent", ctx.where(cb),
+                  "DhcpOption::from(u8) must be DhcpOption(v) for every v (is %s): mapping one code onto another makes a request for the "
+                  "one count as a request for the other" % [show(r)[:60] for r in rets])
+    ctx.floor("R1", "u8 -> DhcpOption conversion", len(conv), 1)
     # handlers write unconditionally only 53/54/51
     n = 0
     for b in P.bodies.values():
